@@ -1,7 +1,7 @@
 //@include prelude/head.rs
 //@include prelude/hash.rs
 use vstd::std_specs::convert::IntoSpec;
-broadcast use {vstd::std_specs::hash::group_hash_axioms, axh::axiom_uuid_key_model, ax::axiom_string_eq_spec, ax::axiom_string_obeys_eq, ax::axiom_string_to_string, ax::axiom_str_view_injective, tmod::axiom_taskmap_view_injective, ax::axiom_string_view_injective, axs::axiom_str_into_string, axs::axiom_str_into_string_obeys, axs::axiom_string_into_string, axs::axiom_string_into_string_obeys, axs::axiom_string_str_eq, axs::axiom_string_str_eq_obeys, axs::axiom_string_from_str, axs::axiom_string_from_str_obeys};
+broadcast use {vstd::std_specs::hash::group_hash_axioms, axh::axiom_uuid_key_model, ax::axiom_string_eq_spec, ax::axiom_string_obeys_eq, ax::axiom_string_to_string, ax::axiom_str_view_injective, axr::axiom_as_ref_chars, axr::axiom_as_ref_chars_str, axr::axiom_as_ref_chars_string, axr::axiom_as_ref_chars_string_ref, tmod::axiom_taskmap_view_injective, ax::axiom_string_view_injective, axs::axiom_str_into_string, axs::axiom_str_into_string_obeys, axs::axiom_string_into_string, axs::axiom_string_into_string_obeys, axs::axiom_string_str_eq, axs::axiom_string_str_eq_obeys, axs::axiom_string_from_str, axs::axiom_string_from_str_obeys};
 //@props C19
 //@include regions/errors.rs
 //@include regions/op_types.rs
@@ -16,33 +16,18 @@ broadcast use {vstd::std_specs::hash::group_hash_axioms, axh::axiom_uuid_key_mod
 //@include regions/taskdata_impl.rs
 //@include regions/task_impl.rs
 //@include regions/workingset_type.rs
+//@include regions/task_keys_impl.rs
 // ---- functions these properties depend on that are NOT verified (outside the verifier's reach): hashed; a change -> UNDECIDED
-//@watch C19 :: src/task/task.rs :: impl Task :: fn add_tag
-//@watch C19 :: src/task/task.rs :: impl Task :: fn remove_tag
-//@watch C19 :: src/task/task.rs :: impl Task :: fn add_annotation
-//@watch C19 :: src/task/task.rs :: impl Task :: fn remove_annotation
 //@watch C19 :: src/task/task.rs :: impl Task :: fn set_due
 //@watch C19 :: src/task/task.rs :: impl Task :: fn set_uda
 //@watch C19 :: src/task/task.rs :: impl Task :: fn remove_uda
 //@watch C19 :: src/task/task.rs :: impl Task :: fn set_legacy_uda
-//@watch C19 :: src/task/task.rs :: impl Task :: fn set_user_defined_attribute
 //@watch C19 :: src/task/task.rs :: impl Task :: fn remove_legacy_uda
-//@watch C19 :: src/task/task.rs :: impl Task :: fn remove_user_defined_attribute
-//@watch C19 :: src/task/task.rs :: impl Task :: fn add_dependency
-//@watch C19 :: src/task/task.rs :: impl Task :: fn remove_dependency
-//@watch C19 :: src/task/task.rs :: impl Task :: fn has_tag
-//@watch C19 :: src/task/task.rs :: impl Task :: fn has_synthetic_tag
 //@watch C18 :: src/task/task.rs :: impl Task :: fn get_tags
 //@watch C18 :: src/task/task.rs :: impl Task :: fn get_annotations
 //@watch C18 :: src/task/task.rs :: impl Task :: fn get_udas
 //@watch C18 :: src/task/task.rs :: impl Task :: fn get_dependencies
-//@watch C18 :: src/task/task.rs :: impl Task :: fn get_status
-//@watch C18 :: src/task/task.rs :: impl Task :: fn get_description
-//@watch C18 :: src/task/task.rs :: impl Task :: fn get_priority
 //@watch C18 :: src/task/task.rs :: impl Task :: fn get_uda
-//@watch C18 :: src/task/task.rs :: impl Task :: fn get_legacy_uda
-//@watch C18 :: src/task/task.rs :: impl Task :: fn get_user_defined_attribute
-//@watch C18 :: src/task/task.rs :: impl Task :: fn get_value
 //@watch C18 :: src/workingset.rs :: impl WorkingSet :: fn iter
 //@watch C18 C19 :: src/task/tag.rs :: impl FromStr for Tag
 //@watch C18 C19 :: src/task/tag.rs :: impl TryFrom<&str> for Tag
